@@ -61,7 +61,11 @@ func watchdog() {
 	cpuLimit := envInt("VW_CPU_LIMIT_S", 30) * 1e6
 	rssLimit := envInt("VW_RSS_LIMIT_MB", 1536) << 20
 	blockedWall := envInt("VW_BLOCKED_WALL_S", 40) * 1e9
-	blockedCPU := envInt("VW_BLOCKED_CPU_MS", 1500) * 1e3
+	blockedCPU := envInt("VW_BLOCKED_CPU_MS", 4000) * 1e3
+	// the window the blocked test looks at: it restarts whenever the process has used blockedCPU since its start,
+	// so a case that worked for a while and THEN stopped (calls that wait for each other) is seen as well as one
+	// that never got going; this goroutine and the runtime's own background work stay far below the threshold
+	winCase, winWall, winCPU := int64(-1), int64(0), int64(0)
 	for {
 		time.Sleep(100 * time.Millisecond)
 		id := curCase.Load()
@@ -69,13 +73,17 @@ func watchdog() {
 			continue
 		}
 		kind := ""
-		cpuUsed := cpuMicros() - caseStartCPU.Load()
-		wallUsed := time.Now().UnixNano() - caseStartWall.Load()
+		cpuNow := cpuMicros()
+		wallNow := time.Now().UnixNano()
+		cpuUsed := cpuNow - caseStartCPU.Load()
+		if id != winCase || cpuNow-winCPU >= blockedCPU {
+			winCase, winWall, winCPU = id, wallNow, cpuNow
+		}
 		if cpuUsed > cpuLimit {
 			kind = "cpu"
 		} else if rssBytes() > rssLimit {
 			kind = "heap"
-		} else if wallUsed > blockedWall && cpuUsed < blockedCPU {
+		} else if wallNow-winWall > blockedWall {
 			// a call that has been "running" for a long time while the process used next to no CPU is
 			// not slow, it is blocked (a lock that is never released, a read that never returns)
 			kind = "blocked"
